@@ -10,6 +10,6 @@ python3 tools/gen_constants.py
 COQMAKE_TIMEOUT=3000 tools/coqmake > .build_coq.log 2>&1 || { tail -50 .build_coq.log; exit 1; }
 
 [ -f harness/Cargo.lock ] || cp /repo/Cargo.lock harness/Cargo.lock
-(cd harness && RUSTFLAGS="--cfg rsdd_verif" timeout 3000 cargo build --release --offline) > .build_cargo.log 2>&1 || { tail -50 .build_cargo.log; exit 1; }
+(cd harness && RUSTFLAGS="--cfg rsdd_verif" timeout 3000 cargo build --release --offline --bins) > .build_cargo.log 2>&1 || { tail -50 .build_cargo.log; exit 1; }
 python3 tools/build_drivers.py
 echo "setup ok"
